@@ -43,6 +43,13 @@ LEVEL = {
             "the code by injecting a failure before every write-mode open of every generated history (exhaustive per history) and comparing load "
             "result, contents and directory with the model's prediction for both orders", "7 C15", NOTE,
             "Lean 4 theorem over all prefixes of the operation sequence + exhaustive fault injection per history"),
+    "C16": ("proof", "Lean theorems about the stop rule and logging loop for EVERY position stream, limits, box, trace_every, start time/counter: "
+            "nothing logged if a limit is met at the start; otherwise the run takes exactly K>=1 steps, K the FIRST step whose check fails (latch = inside "
+            "at an earlier check) - never earlier, never later; log = [initial] ++ [steps 0<k<K with (n0+k)%te=0] ++ [final], final exactly once, times "
+            "t0+k dt strictly increasing for dt>0; termination within max_steps-n0 steps; kinetic energy = 1/2 sum p^2/m of the logged momentum. The "
+            "dynamics are abstracted as the position stream (taken from a limit-free run of the same trajectory). Tied to continue_simulating of all "
+            "classes incl. MD on boundary-directed states and to whole runs with random limits; even-sampling children checked on the implementation", "7 C16", NOTE,
+            "Lean 4 theorems (induction over the position stream) + predicate and run-level correspondence"),
     "C17": ("proof", "Lean theorems for any list of traces with weights >= 0, total > 0: every table entry in [0,1], entries sum to one (1-D), "
             "table/counts/histogram invariant under List.Perm, counts = cardinality, hop histogram sums to one, driver row = row-major table. "
             "Tied to real batches of all five classes (even-sampling trees with unequal weights), both stores, summarize() text and CLI rows", "7 C17", NOTE,
